@@ -25,11 +25,19 @@ static std::vector<float> data_for(const Shape &s) {
   for (std::size_t i = 0; i < v.size(); ++i) v[i] = 0.25f * static_cast<float>((i * 7) % 5) + 0.5f;
   return v;
 }
+// data of the SECOND operand of a function of two tensors: other values (0.5,1,1.5,0.75 vs 1.5,2.25,1.25,2 on
+// the 2x2 default; never 1, the scalar is 1.25), so that f(A,B) != f(B,A) for subtract / divide / pow / matmul / concat / conv2d / the dense
+// cross entropy, and a Node function that swaps or duplicates its operands changes the result.
+// (engines/c04.py builds the same operand for the model: qdata2.)
+static std::vector<float> data_b(const Shape &s) {
+  std::vector<float> v(s.size());
+  for (std::size_t i = 0; i < v.size(); ++i) v[i] = 0.25f * static_cast<float>((i * 3 + 1) % 7) + 1.25f;
+  return v;
+}
 static std::string vals(const Tensor &t) {
-  std::ostringstream o;
-  o << t.shape().to_string() << ":";
-  for (float f : t.to_vector()) o << f << ",";
-  return o.str();
+  std::string o = t.shape().to_string() + ":";
+  for (float f : t.to_vector()) { char b[40]; snprintf(b, sizeof b, "%.9g,", static_cast<double>(f)); o += b; }
+  return o;
 }
 static std::string clip(const std::string &s) {
   std::string m = s;
@@ -42,11 +50,13 @@ static std::string clip(const std::string &s) {
 template <class V> struct Make;
 template <> struct Make<Tensor> {
   static Tensor in(const Shape &s) { return F::input<Tensor>(s, data_for(s)); }
+  static Tensor in2(const Shape &s) { return F::input<Tensor>(s, data_b(s)); }
   static std::string show(const Tensor &t) { return vals(t); }
   static std::string stat(const Tensor &t) { return t.shape().to_string(); }
 };
 template <> struct Make<Node> {
   static Node in(const Shape &s) { return F::input<Node>(s, data_for(s)); }
+  static Node in2(const Shape &s) { return F::input<Node>(s, data_b(s)); }
   static std::string show(const Node &n) { return vals(n.graph().forward(n)); }
   static std::string stat(const Node &n) { return n.shape().to_string(); }
 };
@@ -85,7 +95,8 @@ bool invoke(const std::string &ns, const std::string &name, const std::string &t
   const U32s ids{0};
 #define X1 Make<V>::in(M)
 #define XA Make<V>::in(as ? S : M)
-#define XB Make<V>::in(bs ? S : M)
+#define X2 Make<V>::in2(M)
+#define XB Make<V>::in2(bs ? S : M)
 #define R1(e) { out.push_back(e); return true; }
   if (ns == "functions") {
     if (name == "positive") R1(F::positive(X1));
@@ -113,11 +124,11 @@ bool invoke(const std::string &ns, const std::string &name, const std::string &t
     if (name == "slice") R1(F::slice(X1, 0, 0, 1));
     if (name == "split") { out = F::split(X1, 0, 2); return true; }
     if (name == "concat<X>" && tys == "vec<X>,u32") {
-      std::vector<V> xs; if (variant != "empty") { xs.push_back(X1); xs.push_back(X1); }
+      std::vector<V> xs; if (variant != "empty") { xs.push_back(X1); xs.push_back(X2); }
       R1(F::concat(xs, 0));
     }
     if (name == "concat<X>" && tys == "vec<X*>,u32") {
-      V a = X1, b = X1; std::vector<const V *> xs; if (variant != "empty") { xs.push_back(&a); xs.push_back(&b); }
+      V a = X1, b = X2; std::vector<const V *> xs; if (variant != "empty") { xs.push_back(&a); xs.push_back(&b); }
       R1(F::concat(xs, 0));
     }
     if (name == "reshape") R1(F::reshape(X1, Shape({4})));
@@ -125,7 +136,7 @@ bool invoke(const std::string &ns, const std::string &name, const std::string &t
     if (name == "transpose") R1(F::transpose(X1));
     if (name == "flip") R1(F::flip(X1, 0));
     if (name == "permute_dims") R1(F::permute_dims(X1, U32s{1, 0}));
-    if (name == "matmul") R1(F::matmul(X1, X1));
+    if (name == "matmul") R1(F::matmul(X1, X2));
     if (name == "abs") R1(F::abs(X1));
     if (name == "sqrt") R1(F::sqrt(X1));
     if (name == "exp") R1(F::exp(X1));
@@ -147,10 +158,10 @@ bool invoke(const std::string &ns, const std::string &name, const std::string &t
     if (name == "logsumexp") R1(F::logsumexp(X1, 0));
     if (name == "log_softmax") R1(F::log_softmax(X1, 0));
     if (name == "softmax") R1(F::softmax(X1, 0));
-    if (name == "softmax_cross_entropy" && tys == "X,X,u32") R1(F::softmax_cross_entropy(X1, X1, 0));
+    if (name == "softmax_cross_entropy" && tys == "X,X,u32") R1(F::softmax_cross_entropy(X1, X2, 0));
     if (name == "softmax_cross_entropy" && tys == "X,vec<u32>,u32") R1(F::softmax_cross_entropy(X1, ids, 0));
     if (name == "stop_gradient") R1(F::stop_gradient(X1));
-    if (name == "conv2d") R1(F::conv2d(X1, X1, 0, 0, 1, 1, 1, 1));
+    if (name == "conv2d") R1(F::conv2d(X1, X2, 0, 0, 1, 1, 1, 1));
     if (name == "max_pool2d") R1(F::max_pool2d(X1, 1, 1, 0, 0, 1, 1));
     if (name == "constant_node") R1(Rand<V>::constant(M, 2.f));
     if (name == "identity_node") R1(Rand<V>::identity(2));
@@ -160,11 +171,11 @@ bool invoke(const std::string &ns, const std::string &name, const std::string &t
     if (name == "slice") R1(F::batch::slice(Make<V>::in(B), 0, 1));
     if (name == "split") { out = F::batch::split(Make<V>::in(B), 2); return true; }
     if (name == "concat<X>" && tys == "vec<X>") {
-      std::vector<V> xs; if (variant != "empty") { xs.push_back(X1); xs.push_back(X1); }
+      std::vector<V> xs; if (variant != "empty") { xs.push_back(X1); xs.push_back(X2); }
       R1(F::batch::concat(xs));
     }
     if (name == "concat<X>" && tys == "vec<X*>") {
-      V a = X1, b = X1; std::vector<const V *> xs; if (variant != "empty") { xs.push_back(&a); xs.push_back(&b); }
+      V a = X1, b = X2; std::vector<const V *> xs; if (variant != "empty") { xs.push_back(&a); xs.push_back(&b); }
       R1(F::batch::concat(xs));
     }
     if (name == "sum") R1(F::batch::sum(Make<V>::in(B)));
@@ -177,6 +188,7 @@ bool invoke(const std::string &ns, const std::string &name, const std::string &t
   }
   return false;
 #undef X1
+#undef X2
 #undef XA
 #undef XB
 #undef R1
@@ -217,6 +229,9 @@ static std::string verdict(const std::string &t, const std::string &n) {
   const bool nok = n.compare(0, 3, "ok ") == 0 && n.find("err@eval") == std::string::npos;
   if (tok != nok) return "DIFF";
   if (tok && t != n) return "DIFF";
+  // both err: "every Tensor-API error is reported at Node CREATION": a Node that is created and fails only
+  // when evaluated does not agree (none of these rows mixes devices or passes distribution parameters)
+  if (!tok && n.compare(0, 11, "err@create:") != 0) return "DIFF";
   return "agree";
 }
 
@@ -249,31 +264,41 @@ static std::string sweep() {
     }
     return s;
   };
+  // Node side: "err" only when the CREATION throws Error; an Error at evaluation is "err@eval" and never equals
+  // the Tensor side (every Tensor-API error must be reported when the node is created)
+  auto trynode = [&](const std::function<std::vector<Node>()> &create) {
+    Graph g; Graph::set_default(g);
+    std::vector<Node> r;
+    std::string c = tryit([&] { r = create(); return std::string(); });
+    if (!c.empty()) return c;
+    std::string v = tryit([&] { return nodevals(r); });
+    return v == "err" ? std::string("err@eval") : v;
+  };
   for (auto &sx : shapes) {
     for (auto dim : dims) {
       for (std::uint32_t nn : {0u, 1u, 2u, 3u, 4u, 2147483648u, 4294967295u}) {
         std::ostringstream w; w << "split_" << sx.to_string() << "_dim=" << dim << "_n=" << nn;
         std::string a = tryit([&] { Tensor x = F::input<Tensor>(sx, data_for(sx)); auto r = F::split(x, dim, nn); std::string s; for (auto &t : r) s += vals(t) + ";"; return s; });
-        std::string b = tryit([&] { Graph g; Graph::set_default(g); Node x = F::input<Node>(sx, data_for(sx)); return nodevals(F::split(x, dim, nn)); });
+        std::string b = trynode([&] { Node x = F::input<Node>(sx, data_for(sx)); return F::split(x, dim, nn); });
         cmp(w.str(), a, b);
       }
       for (auto &ids : std::vector<U32s>{{0}, {1}, {2}, {0, 1}, {0, 1, 2}, {}}) {
         std::ostringstream w; w << "sparse_sce_" << sx.to_string() << "_dim=" << dim << "_ids#" << ids.size() << ":" << (ids.empty() ? 0 : ids[0]);
         std::string a = tryit([&] { Tensor x = F::input<Tensor>(sx, data_for(sx)); return vals(F::softmax_cross_entropy(x, ids, dim)) + ";"; });
-        std::string b = tryit([&] { Graph g; Graph::set_default(g); Node x = F::input<Node>(sx, data_for(sx)); return nodevals({F::softmax_cross_entropy(x, ids, dim)}); });
+        std::string b = trynode([&] { Node x = F::input<Node>(sx, data_for(sx)); return std::vector<Node>{F::softmax_cross_entropy(x, ids, dim)}; });
         cmp(w.str(), a, b);
       }
       for (auto &st : shapes) {
         std::ostringstream w; w << "sce_" << sx.to_string() << "_" << st.to_string() << "_dim=" << dim;
-        std::string a = tryit([&] { Tensor x = F::input<Tensor>(sx, data_for(sx)); Tensor t = F::input<Tensor>(st, data_for(st)); return vals(F::softmax_cross_entropy(x, t, dim)) + ";"; });
-        std::string b = tryit([&] { Graph g; Graph::set_default(g); Node x = F::input<Node>(sx, data_for(sx)); Node t = F::input<Node>(st, data_for(st)); return nodevals({F::softmax_cross_entropy(x, t, dim)}); });
+        std::string a = tryit([&] { Tensor x = F::input<Tensor>(sx, data_for(sx)); Tensor t = F::input<Tensor>(st, data_b(st)); return vals(F::softmax_cross_entropy(x, t, dim)) + ";"; });
+        std::string b = trynode([&] { Node x = F::input<Node>(sx, data_for(sx)); Node t = F::input<Node>(st, data_b(st)); return std::vector<Node>{F::softmax_cross_entropy(x, t, dim)}; });
         cmp(w.str(), a, b);
       }
     }
     for (std::uint32_t nn : {0u, 1u, 2u, 3u, 4u, 6u, 2147483648u, 4294967295u}) {
       std::ostringstream w; w << "batch_split_" << sx.to_string() << "_n=" << nn;
       std::string a = tryit([&] { Tensor x = F::input<Tensor>(sx, data_for(sx)); auto r = F::batch::split(x, nn); std::string s; for (auto &t : r) s += vals(t) + ";"; return s; });
-      std::string b = tryit([&] { Graph g; Graph::set_default(g); Node x = F::input<Node>(sx, data_for(sx)); return nodevals(F::batch::split(x, nn)); });
+      std::string b = trynode([&] { Node x = F::input<Node>(sx, data_for(sx)); return F::batch::split(x, nn); });
       cmp(w.str(), a, b);
     }
   }
